@@ -226,8 +226,8 @@ type Popped struct {
 	EndStream  bool
 	DoneIsNil  bool
 	DoneIsOrig bool
-	StreamOK   bool // refers to the same stream (id and object) as the pushed frame
-	Identical  bool // the very request that was pushed (same writer, stream and completion channel)
+	StreamOK   bool          // refers to the same stream (id and object) as the pushed frame
+	Identical  bool          // the very request that was pushed (same writer, stream and completion channel)
 	Desc       func() string // description of what was returned (only evaluated for messages)
 }
 
